@@ -124,20 +124,37 @@ Proof.
     rewrite (ok_eq _ H x y z E1). destruct (dcmp y z); auto.
 Qed.
 
+Lemma ok_tcmp : ok tcmp.
+Proof. unfold tcmp. repeat apply ok_lex; apply ok_on; first [apply ok_Z | apply ok_string]. Qed.
+
+Lemma ok_ocmp {A} (c : cmpf A) : ok c -> ok (ocmp c).
+Proof.
+  intros H. split.
+  - intros [a|]; cbn; auto. apply (ok_refl _ H).
+  - intros [a|] [b|]; cbn; auto. apply (ok_anti _ H).
+  - intros [a|] [b|] [d|]; cbn; try discriminate; auto. apply (ok_trans _ H).
+  - intros [a|] [b|] [d|]; cbn; try discriminate; auto. apply (ok_eq _ H).
+Qed.
+
 Lemma ok_kcmp : ok kcmp.
-Proof. unfold kcmp. apply ok_lex; [apply ok_k7|apply ok_on, ok_lcmp]. Qed.
+Proof.
+  unfold kcmp. apply ok_lex; [apply ok_k7|]. apply ok_lex; [apply ok_on, ok_lcmp|apply ok_on, ok_ocmp, ok_tcmp].
+Qed.
 
 (** The Go comparator answers "less" exactly when the key order does, or when the keys tie and the left
     report has no diagnostics (the cmpDiagnostics quirk). *)
 Lemma report_lt_spec a b :
   report_lt a b = true <-> kcmp a b = Lt \/ (kcmp a b = Eq /\ fsort (r_diags a) = []).
 Proof.
-  unfold report_lt, kcmp, lex, on. destruct (k7 a b); cbn.
-  - destruct (fsort (r_diags a)) as [|x xs], (fsort (r_diags b)) as [|y ys]; cbn [cmp_diagnostics_neg].
+  unfold report_lt, kcmp, lex, on, tkey. destruct (k7 a b); cbn -[lcmp].
+  - destruct (fsort (r_diags a)) as [|x xs] eqn:Ea, (fsort (r_diags b)) as [|y ys] eqn:Eb.
     + cbn. split; auto.
     + cbn. split; auto.
     + cbn. split; [discriminate|]. intros [H|[H _]]; discriminate.
-    + destruct (lcmp (x :: xs) (y :: ys)); split; auto; try discriminate; intros [H|[_ H]]; discriminate.
+    + destruct (lcmp (x :: xs) (y :: ys)); cbn [ocmp].
+      * destruct (tcmp a b); split; auto; try discriminate; intros [H|[_ H]]; discriminate.
+      * split; auto.
+      * split; [discriminate|]. intros [H|[H _]]; discriminate.
   - split; auto.
   - split; [discriminate|]. intros [H|[H _]]; discriminate.
 Qed.
@@ -163,6 +180,17 @@ Proof.
     assert (D : dcmp x y = Eq) by (apply dcmp_eq; auto). rewrite D. now apply IH.
 Qed.
 
+Lemma tcmp_eq a b : tcmp a b = Eq <->
+  (r_rfirst a, r_rlast a, r_owner a, r_target a) = (r_rfirst b, r_rlast b, r_owner b, r_target b).
+Proof.
+  unfold tcmp, lex, on. split.
+  - destruct (r_rfirst a ?= r_rfirst b)%Z eqn:E1; try discriminate.
+    destruct (r_rlast a ?= r_rlast b)%Z eqn:E2; try discriminate.
+    destruct (r_owner a ?= r_owner b)%string eqn:E3; try discriminate. intros E4.
+    apply Z.compare_eq in E1, E2. apply String.compare_eq_iff in E3, E4. now rewrite E1, E2, E3, E4.
+  - intros E. injection E as -> -> -> ->. now rewrite !Z.compare_refl, !string_compare_refl.
+Qed.
+
 Lemma kcmp_eq_sort_key a b : kcmp a b = Eq <-> sort_key a = sort_key b.
 Proof.
   unfold kcmp, k7, lex, on, sort_key. split.
@@ -174,7 +202,13 @@ Proof.
     destruct (r_summary a ?= r_summary b)%string eqn:E6; try discriminate.
     destruct (r_details a ?= r_details b)%string eqn:E7; try discriminate.
     apply String.compare_eq_iff in E1, E5, E6, E7. apply Z.compare_eq in E2, E3, E4.
-    rewrite E1, E2, E3, E4, E5, E6, E7. intros E. apply lcmp_eq in E. now rewrite E.
-  - intros E. injection E as -> -> -> -> -> -> -> E8.
-    rewrite !string_compare_refl, !Z.compare_refl. now apply lcmp_eq.
+    rewrite E1, E2, E3, E4, E5, E6, E7.
+    destruct (lcmp (fsort (r_diags a)) (fsort (r_diags b))) eqn:L; try discriminate.
+    apply lcmp_eq in L. rewrite L. intros T. f_equal.
+    unfold tkey in *. destruct (fsort (r_diags a)), (fsort (r_diags b)); cbn in *; try discriminate; auto.
+    apply tcmp_eq in T. now rewrite T.
+  - intros E. injection E as -> -> -> -> -> -> -> E8 E9.
+    rewrite !string_compare_refl, !Z.compare_refl. apply lcmp_eq in E8. rewrite E8.
+    unfold tkey in *. destruct (fsort (r_diags a)), (fsort (r_diags b)); cbn in *; try discriminate; auto.
+    injection E9 as E9a E9b E9c E9d. apply tcmp_eq. now rewrite E9a, E9b, E9c, E9d.
 Qed.
